@@ -226,7 +226,8 @@ impl<T: Elem> Hist<T> {
                         self.model[k] = e;
                         Ok(())
                     }
-                    None => Err(i - len + 1),
+                    // documented: the offset to the size of the stack (saturating at the type's maximum)
+                    None => Err((i - len).saturating_add(1)),
                 };
                 if a != b {
                     return Err(format!("replace({}) returned {:?}, model {:?}", i, a, b));
@@ -456,7 +457,9 @@ pub fn run(ctx: &mut Ctx) {
                 let mut op = r.pick(&big).clone();
                 // half of the positional operations address deep / far positions
                 if r.bool() {
-                    let far = r.below(130);
+                    // ... and one in ten a position far beyond anything a stack can hold (2^31, 2^32+k,
+                    // usize::MAX): out of range like len+1, and to be reported as absent just the same
+                    let far = if r.chance(1, 10) { *r.pick(&[usize::MAX, usize::MAX - 1, usize::MAX / 2 + 1, 1usize << 31, (1usize << 31) - 1, (1usize << 32) + 3, (1usize << 32) - 1, 1usize << 63]) } else { r.below(130) };
                     op = match op {
                         Op::PopVec(_) => Op::PopVec(far),
                         Op::CopyVec(_) => Op::CopyVec(far),
